@@ -395,6 +395,24 @@ def r6(ctx):
                     var = [role_mentions_call(x, "next") and any(isinstance(y, tuple) and y[0] == "call" and "variants" in y[1] for y in role_walk(x)) for x in sides]
                     if var.count(True) == 1:
                         good.append(e)
+            if not good:
+                # filter form: `for pn2 in variants.into_iter().filter(|pn2| weak == pn2.elem.weak_shape().0)` — the loop only sees
+                # variants that passed the whole-shape comparison
+                def whole_shape2(r, depth=0):
+                    r = strip_role(r)
+                    while isinstance(r, tuple) and r[0] == "upvar" and depth < 6:
+                        r = strip_role(r[2]); depth += 1
+                    return isinstance(r, tuple) and r[0] == "field" and r[2] == "0" and isinstance(strip_role(r[1]), tuple) and strip_role(r[1])[0] == "call" and strip_role(r[1])[1] == "weak_shape"
+                for lp in C.iterator_loops(c.body):
+                    if c.bb not in c.body.reach(lp[3], avoid=lp[2]):
+                        continue
+                    for x in role_walk(lp[1]):
+                        if isinstance(x, tuple) and x[0] == "call" and x[1] == "filter" and len(x[3]) == 2 and any(isinstance(y, tuple) and y[0] == "call" and "variants" in y[1] for y in role_walk(x[3][0])):
+                            cl = C._closure_of_role(crate, x[3][1])
+                            if hasattr(cl, "calls"):
+                                rr = strip_role(cl.role_of_local(0))
+                                if isinstance(rr, tuple) and rr[0] == "call" and rr[1] == "eq" and len(rr[3]) == 2 and all(whole_shape2(a_) for a_ in rr[3]):
+                                    good.append(("filter", lp[0]))
             ctx.check(bool(good), "whole-shape-equality:" + C.fkey(b),
                       "%s adds a symmetry only under `weak_shape(stored node).0 == weak_shape(variant).0` (whole nodes, bound slots included)" % C.short(b.id),
                       "%s adds a permutation to a class group without having compared the whole weak shape of the group-compatible variant with that of the stored node "
